@@ -489,6 +489,8 @@ def _ga_containers(i, v, name, node, fr):
         return BoundMethod(v, app)
     if isinstance(v, SymList) and name == "extend":
         def ext2(interp, self_, args, kw, node2, fr2):
+            if not isinstance(args[0], (SymList, PyList)):
+                raise Unsupported("list.extend(%r)" % (args[0],), node2)
             r = seq_concat(interp, self_, args[0], node2)
             self_.seq = r.seq
             return None
